@@ -108,6 +108,7 @@ def seqpar_configs(h, quick_np, thorough_np):
 
 PROPS["C06"] = dict(
     module="RaptorModel.Props.C06",
+    extra_theorem_modules=["RaptorModel.Props.C06Par"],
     harnesses=["h_c06"],
     configs=seqpar_configs("h_c06", [1, 2, 3, 4, 7], list(range(1, 17))),
     rule=("sequential: random conforming pairs (rectangular, empty rows/cols, duplicates, explicit zeros, +-1 values so that products cancel "
@@ -182,7 +183,7 @@ PROPS["C04"] = dict(
 
 def c05_configs(tier, seed):
     cfgs = []
-    for n, ppn in nps(tier, [(2, 2), (3, 3), (4, 2)], [(2, 1), (2, 2), (3, 3), (4, 2), (4, 4), (6, 3), (8, 4), (16, 4)]):
+    for n, ppn in nps(tier, [(2, 2), (3, 3), (4, 2), (6, 2), (8, 2)], [(2, 1), (2, 2), (3, 3), (4, 2), (4, 4), (6, 2), (6, 3), (8, 2), (8, 4), (16, 4)]):
         cfgs.append({"tag": f"h_c05-np{n}-ppn{ppn}", "harness": "h_c05", "np": n, "env": {"PPN": ppn, "VERIF_WATCHDOG": 60, "OMPI_MCA_btl_vader_eager_limit": 96, "OMPI_MCA_btl_vader_max_send_size": 256}, "timeout": 900 if tier == "thorough" else 280})
     return cfgs
 
